@@ -49,7 +49,6 @@ def obligations(tier):
         dict(name="htmlescape", harness="C29_codec.c", entry="harness_htmlescape", defines=D, unwind=6 * n + 2, unwindset=["vp_memcpy.0:7", "ruc_starts.0:8", "evhttp_htmlescape.0:%d" % (n + 1), "evhttp_htmlescape.1:%d" % (n + 1), "vp_cstring.0:%d" % (n + 1)],
              timeout=TT, mem_gb=MM, desc="evhttp_htmlescape, C string <= %d" % n),
     ]
-    n = 5 if tier == "quick" else 6
     # exact-size heap objects (VP_ALLOC_EXACT): an overrun of what the functions allocate is a cbmc pointer-check failure
     ne = 3 if tier == "quick" else 5
     DE = ["VP_N=%d" % ne, "VP_STR_OBJ=40", "VP_ALLOC_EXACT", "VP_BYTES_MAX=%d" % (3 * ne + 5)]
@@ -63,6 +62,7 @@ def obligations(tier):
     if tier != "quick":
         obs.append(dict(name="uridecode_ndebug", harness="C29_codec.c", entry="harness_uridecode", defines=D, unwind=n + 2, unwindset=US, ndebug=True,
              timeout=TT, mem_gb=MM, desc="NDEBUG twin of uridecode (EVUTIL_ASSERT(n >= 0) compiled out as in the shipped build)"))
+    n = 5 if tier == "quick" else 6          # query strings
     for fl, nm in ((-1, "str"), (0, "f0"), (1, "lax"), (2, "last"), (3, "lax_last")):
         lax = fl >= 0 and (fl & 1)
         it = (n + 1) if lax else (n // 3 + 1)       # iterations of the pair loop: every pair consumes >= 1 (lax) / >= 3 (strict) bytes
